@@ -537,11 +537,15 @@ Definition d_handler (x : xval) : option (bytes * N) :=
   match x with XL [XB p; XN sp] => Some (p, sp) | _ => None end.
 Definition d_hdr (x : xval) : option (bytes * bytes) :=
   match x with XL [XB a; XB c] => Some (a, c) | _ => None end.
+(** the request as kvarn's HTTP/1 reader hands it on: [parse::headers] does [headers.insert(name, value)],
+    so of a repeated header line the last one counts *)
+Definition norm_headers (hs : list (bytes * bytes)) : list (bytes * bytes) :=
+  fold_left (fun acc kv => filter (fun h => negb (beq (fst h) (fst kv))) acc ++ [kv]) hs [].
 Definition d_cop (x : xval) : option cop :=
   match x with
   | XL [XN 0; m; XB t; hs] =>
       match d_method m, d_list d_hdr hs with
-      | Some m', Some hs' => let '(p, q) := split_target t [] in Some (CReq (mkReq m' p q hs' 0))
+      | Some m', Some hs' => let '(p, q) := split_target t [] in Some (CReq (mkReq m' p q (norm_headers hs') 0))
       | _, _ => None
       end
   | XL [XN 2] => Some CClear
@@ -633,7 +637,17 @@ Definition run_conn_spec (x : xval) : xval :=
   | _ => bad_input
   end.
 
+(** "cors.parse": the stand-in parser itself, compared with [Uri::try_from] on the grammar *)
+Definition run_parse (x : xval) : xval :=
+  match d_list d_B x with
+  | Some l => XL (map (fun b => match parse_uri b with
+                                | None => XL []
+                                | Some u => XL [x_option XB (u_scheme u); x_option XB (u_host u); x_option XN (u_port u)]
+                                end) l)
+  | None => bad_input
+  end.
+
 Definition cors_table : list (bytes * (xval -> xval)) :=
-  [ (B "cors.check", run_check); (B "cors.check_v0", run_check_v0); (B "cors.check_spec", run_check_spec);
+  [ (B "cors.parse", run_parse); (B "cors.check", run_check); (B "cors.check_v0", run_check_v0); (B "cors.check_spec", run_check_spec);
     (B "cors.conn", run_conn_x); (B "cors.conn_v0", run_conn_v0); (B "cors.conn_nocache", run_conn_nocache);
     (B "cors.conn_spec", run_conn_spec) ].
